@@ -26,7 +26,7 @@ func init() {
 		Rule: "cases: (paths) every fragment kind (root, current, child, index, wildcard, descent, union, slice, filter) in every position; child keys: every single byte 0-255 as a one-byte key, embedded in aXb and next to a second character that needs an escape of its own, quotes, backslashes, control and multi-byte characters, the reserved spellings; " +
 			"unions mixing such keys with indexes; slices with every subset of bounds present incl. the default sentinels; nested filters; random paths. (equations) all ordered operator pairs in both nestings (a op1 b) op2 c and a op1 (b op2 c), unary ! over each, functions, " +
 			"constants of every kind incl. strings with quotes/escapes and regexes with '/', random trees of depth <= 4. Each path is also built through the builder functions (jp.R().C(..).N(..) in both spellings) and must be the same expression. Each is printed (String and BracketString; Equation, Script and Filter strings), parsed back and printed again; the texts must be identical, " +
-			"and the re-parsed value must select the same elements / give the same truth value on a battery of data (equations also against S on the constructed tree). also indexes, union members and slice members at and near the int limits. non-trivial: every case; distinct by construction (enumerations) or by digest",
+			"and the re-parsed value must select the same elements / give the same truth value on a battery of data (equations also against S on the constructed tree). also indexes, union members and slice members at and near the int limits. also regex constants with slashes next to backslashes and jp.Slice values with more than three members. non-trivial: every case; distinct by construction (enumerations) or by digest",
 		Assumptions: []string{
 			"two adjacent Descent fragments and the Bracket marker fragment are not generated (not in the statement's list)",
 			"keys and string constants with invalid UTF-8 are expected to round-trip only up to U+FFFD replacement",
